@@ -60,10 +60,10 @@ PROP = {
             "while another node of the batch still holds unprocessed commands (corpus failfast-exec.txt; the stall is lifted after 300 ms "
             "when Exec is still waiting, which is what the unchanged code does - the time never decides a verdict on a correct Exec). C19out resumable plain scenarios (checkpoint offset on the target): monitor "
             "checkpoint-ahead-of-execution (the largest stored offset covers a command that never took effect) with a trace-derived "
-            "mechanism: offset-sent-after-failed-answer (D29a, fixed b47e97e: forced scenario nofollow-pipe, moved slot last in the stream, "
+            "mechanism: offset-sent-after-failed-answer (fixed b47e97e: forced scenario nofollow-pipe, moved slot last in the stream, "
             "its node stalled until the sender is idle, client Close held until the write arrives) / offset-applied-before-failed-answer "
             "(cpbatch-block, cpbatch-pipe: data and checkpoint HSETs in one batch, data node stalled until the checkpoint node applied the "
-            "offset, then -ERR); D22's `cause` is set by the monitor only when the trace shows the mechanism",
+            "offset, then -ERR); the `cause` of C19-F1 (D22) is set by the monitor only when the trace shows the mechanism",
     "trusted": [
         "Redis Cluster redirection rules as transcribed in Model/ClusterRoute.lean (answer, tanswer, applyMig) and in the cluster "
         "double vf_c19_double_test.go (getNodeByQuery: MOVED/ASK/ASKING/TRYAGAIN/CROSSSLOT, EXEC re-check over all queued keys, "
@@ -80,7 +80,7 @@ PROP = {
         "(A->B->A ping-pong); per_key_order_stmt_false shows the hypothesis is necessary for any pipelining client",
         "bytes already sent on an aborted connection are consumed by the node before the sender's retry (1 s back-off in output.go)",
         "the model's put admits only routes equal to those of unfinished commands of the same slot (repaired behaviour: D21 fixed, "
-        "D22 recorded finding); traces of the current code that violate it are reported as `reject route-split` by both sides",
+        "C19-F1 (D22) recorded finding); traces of the current code that violate it are reported as `reject route-split` by both sides",
     ],
     "partial": [
         "transactional + PIPELINED sender and a non-redirect error returned by Dispatch itself: sendFunc dispatches the batch again "
@@ -101,7 +101,7 @@ PROP = {
         "per_key_order: proved as per_key_order_partial under QuietRun; the unconditional statement is false in the model "
         "(per_key_order_stmt_false, ping-pong of a slot inside one pipeline)",
         "per-key order of pipelined transactions (txnpipe, window>1) is not a theorem: only sequential use (txn_sequential_order); "
-        "D22 shows it fails in the code",
+        "C19-F1 (D22) shows it fails in the code",
         "multi-key commands: the model has single-key commands; TRYAGAIN/CROSSSLOT are the generic `err` answer (executes nothing, "
         "batch reports an error); checked on the code by the monitor only",
         "goroutine interleaving of per-node batches and socket timing are sampled by the tie, not enumerated",
@@ -118,6 +118,6 @@ MANIFEST = {
             "replayed through the model (membership) and per-node/per-key sequences compared; an independent Go monitor checks the property on "
             "the double's execution log.",
     "note": "trusted: Lean kernel, Redis redirection rules (model + double), harness; model hand-written, tied by trace membership; "
-            "QuietRun hypothesis; pipelined cross-batch reorder recorded as finding D22",
+            "QuietRun hypothesis; pipelined cross-batch reorder recorded as finding C19-F1 (D22)",
     "technique": "Lean 4 proof (invariants over a labelled transition system, induction on event lists) + trace-membership correspondence + runtime monitor",
 }
